@@ -139,12 +139,12 @@ def generate(ctx):
     # that no longer fits the interpreter's calling convention once made every domain-function call raise)
     n_pre = ctx.stats.get('prebuild_ok', 0) + ctx.stats.get('prebuild_exception', 0)
     if n_pre and ctx.stats.get('prebuild_exception', 0) > max(3, PREBUILD_EXCEPTION_LIMIT * n_pre):
-        raise common.HarnessError('%d of %d generated bodies cannot be prebuilt under the lower-case spelling (more '
+        raise getattr(common, 'BrokenTie', common.HarnessError)('%d of %d generated bodies cannot be prebuilt under the lower-case spelling (more '
                                   'than %.0f %%): the prebuilder family is not exercising what it is meant to'
                                   % (ctx.stats.get('prebuild_exception', 0), n_pre, 100 * PREBUILD_EXCEPTION_LIMIT))
     n_run = ctx.stats.get('run_ok', 0) + ctx.stats.get('run_exception', 0)
     if n_run and ctx.stats.get('run_exception', 0) > max(3, RUN_EXCEPTION_LIMIT * n_run):
-        raise common.HarnessError('%d of %d generated bodies end in an exception under the lower-case spelling (more '
+        raise getattr(common, 'BrokenTie', common.HarnessError)('%d of %d generated bodies end in an exception under the lower-case spelling (more '
                                   'than %.0f %%): the interpreter families are not exercising what they are meant to'
                                   % (ctx.stats.get('run_exception', 0), n_run, 100 * RUN_EXCEPTION_LIMIT))
 
